@@ -290,7 +290,7 @@ def run(run, tier, loadcfg):
     run.explanation = __doc__
     run.assumptions = ['|sin| <= 1 (library)', 'f64 `%` of a non-negative finite dividend by rem > 0 lies in [0, rem)', 'long-run floating-point drift of the phase is not decided',
                        'frequency / rate are finite and non-negative (the statement\'s domain)']
-    for cfg in ['std-debug'] + (['nostd'] if tier == 'thorough' else []):
+    for cfg in ['std-debug'] + (['nostd', 'std-release'] if tier == 'thorough' else []):
         fx_ = loadcfg(cfg, optional=(cfg == 'nostd'))
         if fx_ is None:
             continue
